@@ -75,12 +75,12 @@ theorem decode_encode_no_fuel_error (S : Schema) (mi : Nat) (m : Msg) (limit : I
 /-- merge semantics: decoding into a message that only holds smaller field numbers appends the
 fields (the decoder-loop invariant, exposed) -/
 theorem decode_encode_fields (S : Schema) (mi : Nat) (depth : Int) (dis : Bool) (fs acc : Fields)
-    (lb : Nat) (u rest : List Byte) (R : Msg) (hlb : 1 ≤ lb)
+    (lb : Nat) (u rest : List Byte) (R : Except DErr Msg) (hlb : 1 ≤ lb)
     (hwf : cwfFields S (S.msg mi) defaultRecursionLimit lb fs = true) (hacc : acc.allLt lb)
     (hO : ∀ o, oneofFree (S.msg mi) o acc = true ∨ oneofFree (S.msg mi) o fs = true)
     (hd : (depthFields fs : Int) ≤ depth)
-    (hrest : DecOK S mi depth dis (.mk (acc.append (stripFields dis fs)) u) rest R) :
-    DecOK S mi depth dis (.mk acc u) (encFields S (S.msg mi) fs ++ rest) R :=
+    (hrest : DecTo S mi depth dis (.mk (acc.append (stripFields dis fs)) u) rest R) :
+    DecTo S mi depth dis (.mk acc u) (encFields S (S.msg mi) fs ++ rest) R :=
   fields_ok (groupScanOK S) (Int.le_refl _) fs lb acc hlb hwf hacc hO hd (fun sub _ => roundMsg (groupScanOK S) sub) hrest
 
 /-- injectivity of the encoder on well-formed messages (what C05 needs) -/
